@@ -269,14 +269,13 @@ class TimeStamp(TdmsType):
         self.value = value
         epoch_delta = value - self._tdms_epoch
 
-        seconds = int(epoch_delta / np.timedelta64(1, 's'))
-        remainder = epoch_delta - np.timedelta64(seconds, 's')
-        zero_delta = np.timedelta64(0, 's')
-        if remainder < zero_delta:
-            remainder = np.timedelta64(1, 's') + remainder
-            seconds = seconds - 1
-        microseconds = int(remainder / np.timedelta64(1, 'us'))
-        second_fractions = int(microseconds * self._fractions_per_microsecond)
+        # Use integer arithmetic so that the split into seconds and microseconds is exact
+        total_microseconds = int(epoch_delta.astype('timedelta64[us]').astype(np.int64))
+        seconds, microseconds = divmod(total_microseconds, 10**6)
+        # Add a guard of 2**-40 seconds (less than a picosecond) so that conversions back to
+        # microseconds or nanoseconds, which truncate after a floating point division,
+        # always recover the original value rather than the value one step below it.
+        second_fractions = (microseconds * 2**64) // 10**6 + 2**24
         self.bytes = _struct_pack('<Qq', second_fractions, seconds)
 
     @classmethod
